@@ -18,7 +18,8 @@ func (f *TrimToFilter) Apply(src []byte, _ []byte) []byte {
 		}
 	}
 	if f.mode == trimModeAll || f.mode == trimModeRight {
-		if idx := bytes.LastIndex(src, f.cutset); idx != -1 {
+		// LastIndex returns len(src) for an empty cutset: nothing to trim then
+		if idx := bytes.LastIndex(src, f.cutset); idx != -1 && idx < len(src) {
 			src = src[:idx+1]
 		}
 	}
